@@ -13,6 +13,10 @@ from .report import Check
 
 D='pjrpc/server/dispatcher.py'; V='pjrpc/common/v20.py'; E='pjrpc/common/exceptions.py'; R='pjrpc/client/retry.py'; C='pjrpc/client/client.py'
 NEUTRAL = [
+ dict(name='batch-ids-prescanned-under-a-type-test', file=V,
+      find='        return cls(*(Request.from_json(request) for request in data))',
+      replace='        seen = {item.get("id") for item in data if isinstance(item, dict) and isinstance(item.get("id"), (int, str))}\n        del seen\n'
+              '        return cls(*(Request.from_json(request) for request in data))'),
  dict(name='notif-test-via-is_notification', file=D, all=True, find='        if request.id is None:\n            return UNSET\n', replace='        if request.is_notification:\n            return UNSET\n'),
  dict(name='merge-parse-handlers', file=D, all=True,
       find='        except json.JSONDecodeError as e:\n            response = self._response_class(id=None, error=pjrpc.exceptions.ParseError(data=str(e)))\n\n        except (pjrpc.exceptions.DeserializationError, pjrpc.exceptions.IdentityError) as e:\n            response = self._response_class(id=None, error=pjrpc.exceptions.InvalidRequestError(data=str(e)))\n\n        except ValueError as e:\n            response = self._response_class(id=None, error=pjrpc.exceptions.ParseError(data=str(e)))\n',
